@@ -10,7 +10,8 @@ for f in json.load(open('/verif/known_findings.json'))['findings']:
     if f['status']=='fixed': print(f['commit'], f['replay'])
 PY
 while read c r; do
-	git -C /repo show $c -- src | git -C /repo apply -R || { echo "cannot revert $c"; bad=1; continue; }
+	# (a later fix may have changed a line of this one: revert the hunks that still apply)
+	git -C /repo show $c -- src | git -C /repo apply -R 2>/dev/null || { git -C /repo show $c -- src | git -C /repo apply -R --reject >/dev/null 2>&1; find /repo/src -name '*.rej' -delete; git -C /repo diff --quiet && { echo "cannot revert $c"; bad=1; continue; }; echo "note $c reverted in part"; }
 	out=$(./check replay $r 2>&1 | tail -1)
 	git -C /repo checkout -- .
 	case "$out" in REPRODUCED*) echo "ok   $c $r";; *) echo "FAIL $c $r : $out"; bad=1;; esac
